@@ -112,9 +112,9 @@ def run_property(pid, tier, seed, relock=False):
             for u in undecided_reasons[:10]:
                 print('UNDECIDED property=%s %s' % (pid, u[:300]))
             rc = 2
-    if not obligations:
+    if not obligations and rc == 0:
         print('UNDECIDED property=%s no obligations generated (vacuity guard)' % pid)
-        rc = max(rc, 2)
+        rc = 2
     wall = time.time() - t0
     write_evidence(pid, tier, seed, spec, obligations, violations, searches, wall, notes, ctx, nviol)
     if relock:
